@@ -106,7 +106,7 @@ def build(variant="asan", verbose=False):
         lock.close()
 
 
-def gc(odir, keep=3):
+def gc(odir, keep=8):
     groups = {}
     for p in glob.glob(os.path.join(odir, "*")):
         base = os.path.basename(p)
